@@ -40,6 +40,8 @@ TPOOL_RUN = {"harness": "htpool", "driver": "tpooldrv", "fields": None, "corpus"
 # that upgrades and the websocket callbacks share the conn's executor, with a slow handler and frames sent right behind
 # the 101 response; direct oracle c05-overlap, plus the `exec=` field (executor installed by Upgrade, model:
 # WsCb.execOf). Harness, driver and the retrying runner belong to the stop family (docs/stop.md).
+# Round 6 (seed C05-g = C14-f): `hwscb gen -tier c05` also emits 4n gated callback cases with control frames (genCBCtl);
+# checkLog reports c05-overlap / c05-fifo for them (websocket ping/pong handlers are jobs of the conn's queue).
 from .props_stop import retry_run as _retry_run, WSCB_RUN as _WSCB_RUN  # noqa: E402
 WSUP_RUN = {"harness": "hwscb", "driver": "wscbdrv", "corpus": "wscb-c05", "fields": _WSCB_RUN["fields"], "custom": _retry_run,
             "gen_args": ["-tier", "c05"], "quick": {"n": 6, "shards": 6}, "thorough": {"n": 24, "shards": 12}}
@@ -73,14 +75,18 @@ PROPS = {
                     "implementation has become stable; a log-only oracle checks the property on the implementation alone",
             "note": "interleavings of the real code are not enumerated: Lean quantifies over all schedules of the model, the harness "
                     "replays chosen ones; atomicity of the model steps rests on the mutex structure of the three functions (checked on the "
-                    "source by the cs predicates, not derived); concurrent bursts are free-running: their run order is an input taken "
+                    "source by the cs predicates, not derived - incl. 'the drainer's drained test and list reset are one critical section', whose "
+                    "violation is otherwise only met statistically by the drain-hammer op D); concurrent bursts are free-running: their run order is an input taken "
                     "from the implementation and validated by driver code (JobQMain.admissible: an order-preserving merge of the "
                     "submitters' sequences), not by a theorem; 'whichever executor' is proved for executors that eventually run what "
                     "they are given; the HTTP-handler side of 'handlers and callbacks never overlap' has no model of nbhttp's submission "
                     "sites (cs_nbhttp_close_routed + the oracle below); a second, end-to-end run "
                     "(hwscb -tier c05, owned by the stop family: real nbhttp engine on loopback, poller/blockparser upgrade paths in "
                     "lt|et|etos) checks the consequence 'HTTP handler and WebSocket callbacks of one connection never overlap' with "
-                    "the oracle c05-overlap; its model side is C14's WsCb.execOf table (those paths use the same per-conn ExecQ); a third run "
+                    "the oracle c05-overlap; its model side is C14's WsCb.execOf table (those paths use the same per-conn ExecQ); the same stream "
+                    "contains poller-driven gated callback cases in which ping/pong frames (user-set handlers) arrive while a handler of the "
+                    "same conn is still running: every callback is a job of the conn's queue (oracles c05-overlap, c05-fifo; model side "
+                    "WsCb = ExecQ instance); a third run "
                     "(hstop -tier c05, stop family, seed C05-e) holds a request handler of a conn on a real nbhttp engine while Stop/Shutdown "
                     "closes that conn: the close handling must go through MustExecute and wait its turn (oracles c05-overlap, "
                     "c05-close-order; model side: C18's stop model, no ExecQ theorem is instantiated there); a fourth run "
